@@ -32,6 +32,14 @@ def build(case):
                 else:
                     tr.append(mido.Message('sysex', data=[i % 128, j % 128, (j // 128) % 128], time=dt))
         tracks.append(tr)
+    # frozen (immutable, hashable) messages are messages too: all of them in a third of the cases, every other one in another third
+    mode = sum(case) % 3
+    if mode != 2:
+        from mido.frozen import freeze_message
+        for tr in tracks:
+            for j in range(len(tr)):
+                if mode == 0 or j % 2 == 0:
+                    tr[j] = freeze_message(tr[j])
     return tracks
 
 
@@ -105,9 +113,25 @@ def impl_merge(case):
             mf = mido.MidiFile(type=1, tracks=tracks)
             if [(m.time, repr(m)) for m in mf.merged_track] != [(m.time, repr(m)) for m in merged]:
                 fail = ('merged-track', 'MidiFile.merged_track differs from merge_tracks')
+            if fail is None:
+                # the result belongs to the caller: editing it must not reach the inputs, nor any other merge (before or after)
+                want_repr = [(m.time, repr(m)) for m in merged]
+                for m in merged:
+                    try:
+                        m.time += 960
+                    except Exception:  # noqa: BLE001  (frozen messages cannot be edited, so they cannot leak either)
+                        pass
+                m3 = mido.merge_tracks(tracks)
+                if snapshot(tracks) != before:
+                    fail = ('inputs-modified', 'editing the merged track changed the input tracks for %r' % (case[:40],))
+                elif [(m.time, repr(m)) for m in m3] != want_repr:
+                    fail = ('result-shared', 'after the times in an earlier result were edited, merging the same tracks again gives %r, expected %r'
+                            % ([(m.time, repr(m)) for m in m3][-3:], want_repr[-3:]))
+                elif [(m.time, repr(m)) for m in m2] != want_repr:
+                    fail = ('result-shared', 'editing one merge result changed another result obtained earlier: %r' % ([(m.time, repr(m)) for m in m2][-3:],))
             if fail is None and len(tracks) == 1:
                 mf0 = mido.MidiFile(type=0, tracks=tracks)
-                if [(m.time, repr(m)) for m in mf0.merged_track] != [(m.time, repr(m)) for m in merged]:
+                if [(m.time, repr(m)) for m in mf0.merged_track] != want_repr:
                     fail = ('merged-track', 'merged_track of a type 0 file differs from merge_tracks of its track: %r' % ([m.type for m in mf0.merged_track][-4:],))
     except Exception as e:  # noqa: BLE001
         out = [-1, core.exn_code(e)]
@@ -141,8 +165,8 @@ def run(out):
     for tag, rec in core.pmap(job, chunk_jobs(cases, 'merge', COMP_MERGE)):
         core.merge_into(out, rec, tag)
     out.rule = ('merge_tracks on %d generated track lists: 0-6 tracks (incl. none and empty), 0-40 events, deltas from {0,0,0,0,1,2,480,2**28} so that '
-                'ties abound, end_of_track missing / repeated / mid-track; every message identifiable by (track, index); result compared message '
-                'by message with the model; inputs snapshotted before and after; skip_checks=True and MidiFile.merged_track compared. Oracle: '
+                'ties abound, end_of_track missing / repeated / mid-track; every message identifiable by (track, index); a third of the cases hold only frozen messages, a third every other one; result compared message '
+                'by message with the model; inputs snapshotted before and after; skip_checks=True and MidiFile.merged_track compared; the times of one result are then edited and the tracks merged again (results must be independent of each other and of the inputs). Oracle: '
                 'absolute ticks, stable order, exactly one trailing end_of_track, duration of the longest track. Non-trivial: non-zero content; '
                 'distinct by content.' % len(cases))
     out.sample({'component': 'merge', 'case': cases[5]})
